@@ -238,9 +238,72 @@ def run(ctx):
                 ctx.report("roundtrip:" + txt[:100], "expression %r (%s parentheses): expected %s, parsed %s%s" % (txt, style, sx(exp), sx(got) if got else "nothing", "" if diags == "-" else " with diagnostics " + diags),
                            {"component": "tree", "case": l, "expected": sx(exp)})
             nviol += 1
+    # ---- 3. precedence AFTER disambiguation: `(a) o1 b o2 c o3 d` in a unit where `a` is a variable (binary reading) or a typedef name
+    # (cast reading): the parser shapes the ambiguity's binary alternative around a cast-expression operand; the delivered tree must
+    # still be C's.  (`(a) - b * c` was delivered as `((a) - b) * c`: repaired, see known_findings.jsonl.)
+    amb_ops = [o for o in BIN if BIN[o][1] > 2]
+    amb = []
+    for o1 in ("-", "+", "*", "&", "&&"):
+        for o2 in amb_ops:
+            amb.append([o1, o2])
+            for o3 in (amb_ops if not ctx.quick else rng.sample(amb_ops, 6)):
+                amb.append([o1, o2, o3])
+        amb.append([o1])
+    cases3 = []
+    for ops3 in amb:
+        expr = " ".join(["(a)"] + [x for o, v in zip(ops3, "bcd") for x in (o, v)])
+        for is_type in (False, True):
+            unit = "%s int b, c, d; void f(void) { %s; }" % ("typedef int a;" if is_type else "int a;", expr)
+            if is_type:
+                w = pratt(ops3[1:])
+                want = None if w is None else ("CAST", ops3[0], w)
+            else:
+                want = pratt(ops3)
+            cases3.append((unit, expr, is_type, want))
+    impl3 = stages.run_harness(ctx, "tree", ["%s a %s" % (OPTS, c[0].encode().hex()) for c in cases3])
+
+    def find_stmt(t):
+        if t[0] == "ExpressionStatement":
+            return t[1] if len(t) > 1 else None
+        for c in t[1:]:
+            r = find_stmt(c)
+            if r:
+                return r
+        return None
+
+    def norm3(e, first=[True]):
+        if e[0] == "IdentifierName": return ("a",)
+        if e[0] == "ParenthesizedExpression": return norm3(e[1])
+        if e[0] == "CastExpression": return ("a",) if False else ("CASTNODE", norm3(e[2]))
+        return (e[0],) + tuple(norm3(c) for c in e[1:])
+    UN = {"-": "UnaryMinusExpression", "+": "UnaryPlusExpression", "*": "PointerIndirectionExpression", "&": "AddressOfExpression", "&&": "ExtGNU_LabelAddress"}
+    for (unit, expr, is_type, want), i in zip(cases3, impl3):
+        if want is None:
+            continue
+        if i.startswith(("CRASH", "HANG")):
+            ctx.report("crash:" + expr, "parsing %r: %s" % (unit, i[:200]), {"component": "tree", "case": "%s a %s" % (OPTS, unit.encode().hex())}); nviol += 1; continue
+        whole = dump_to_sexpr(i)
+        got = find_stmt(whole) if whole else None
+        if is_type:
+            def subst(w):   # the first operand of the remaining climb is the cast
+                if w == ("a",) : return None
+                return w
+            # expected: climb over [Cast(a, unary b), c, d]: replace the leftmost leaf
+            def leftmost(w, leaf):
+                return leaf if w == ("a",) else (w[0], leftmost(w[1], leaf)) + tuple(w[2:])
+            exp3 = leftmost(want[2], ("CASTNODE", (UN[want[1]], ("a",))))
+        else:
+            exp3 = want
+        gs = sx(norm3(got)) if got else "nothing"
+        if i.split(" | ")[-1] != "-" or gs != sx(exp3):
+            if nviol < 6:
+                ctx.report("disamb-shape:" + unit[:90], "%r with a declared as a %s: delivered %s, C groups it as %s" % (expr, "typedef name" if is_type else "variable", gs, sx(exp3)),
+                           {"component": "tree", "case": "%s a %s" % (OPTS, unit.encode().hex()), "expected": sx(exp3)})
+            nviol += 1
+    ctx.notes["disambiguated_shapes"] = len(cases3)
     ctx.cov.update({
-        "evaluations": len(seqs) + len(cases), "distinct_nontrivial": len(shapes) + len(seqs), "traces_validated_against_impl": len(seqs), "exhaustive": not ctx.quick,
-        "rule": "all operator singles and pairs (30 binary/assignment/comma operators: 930) and %s triples as flat strings 'a o b o c o d' (real parser vs Lean climbing model, FAIL included); %d random expression trees to depth 4 over ALL operators (binary, assignment, conditional, comma, prefix, postfix, cast, sizeof, call, subscript, member, explicit parentheses) printed with minimal / full / redundant parentheses and compared with the parsed tree; non-trivial = distinct expected tree shapes + flat strings"
+        "evaluations": len(seqs) + len(cases) + len(cases3), "distinct_nontrivial": len(shapes) + len(seqs), "traces_validated_against_impl": len(seqs), "exhaustive": not ctx.quick,
+        "rule": "all operator singles and pairs (30 binary/assignment/comma operators: 930) and %s triples as flat strings 'a o b o c o d' (real parser vs Lean climbing model, FAIL included); %d random expression trees to depth 4 over ALL operators (binary, assignment, conditional, comma, prefix, postfix, cast, sizeof, call, subscript, member, explicit parentheses) printed with minimal / full / redundant parentheses and compared with the parsed tree; '(a) o1 b o2 c o3 d' for the 5 ambiguous o1 (- + * & &&) x all binary o2 (x o3) in whole units with a declared as variable and as typedef name: the tree delivered after disambiguation against C's grouping; non-trivial = distinct expected tree shapes + flat strings"
                 % ("all 27,000" if not ctx.quick else "6,000 sampled", len(cases)),
         "samples": [texts[40], texts[-1], cases[0][0], cases[1][0], cases[2][0]],
     })
